@@ -2172,8 +2172,8 @@ impl<'a> UserModel<'a> {
             scope,
             old_value,
         }];
-        self.push_diff_list(diff_list);
         self.model.delete_defined_name(name, scope)?;
+        self.push_diff_list(diff_list);
         self.evaluate_if_not_paused();
         Ok(())
     }
